@@ -54,7 +54,7 @@ func (m *machine) settle() {
 			return
 		}
 		// deterministic: lowest id first unless preemptive exploration is on
-		if m.sc.preempt {
+		if m.sc.preempt >= 1 {
 			en := m.enabled()
 			var cands []*thread
 			for _, t := range en {
